@@ -239,6 +239,7 @@ class Gen:
     def __init__(self):
         self._seq_cache = {}
         self._opt_cache = {}
+        self._names = {}
 
     # Both tables are monotone in the budget (the entries for a smaller budget are exactly the entries of
     # smaller cost), so a smaller request is answered by filtering the largest one computed so far.
@@ -254,6 +255,13 @@ class Gen:
         if sub is None:
             sub = hit[2][budget] = [r for r in hit[1] if r[1] <= budget]
         return sub
+
+    def tracked(self, stmt):
+        """Which of f, h, Red, Cust a statement mentions (memoised per statement object, which the tables keep alive)."""
+        r = self._names.get(id(stmt))
+        if r is None:
+            r = self._names[id(stmt)] = frozenset(var_names(stmt, set()) & TRACKED)
+        return r
 
     def options(self, c, budget):
         hit = self._opt_cache.get(c)
@@ -453,8 +461,11 @@ class Gen:
                 used = var_names(body, set()) & TRACKED
                 yield ("Fun", name, False, None, [], [(p, None) for p in params], None, body), cost + ct, used
 
-    def programs(self, budget, depth):
-        """Every program of weighted size <= budget: (items, cost), unordered."""
+    def programs(self, budget, depth, exact=None, shard=None):
+        """Every program of weighted size <= budget: (items, cost), in a fixed order.
+        exact=k keeps the programs of size exactly k; shard=(j, m) keeps every m-th of those, starting at j
+        (the skipped ones cost almost nothing), so that m processes can split one level."""
+        counter = 0
         enum_item = ("Enum", "Col", False, None, [], [("Red", None), ("Cust", ("T", "Int", []))])
         for which in ((), ("f",), ("h",), ("f", "h")):
             defs_list = [([], 0, frozenset())]
@@ -467,7 +478,7 @@ class Gen:
                 defs_list = new
             top = Ctx(ints=(), l=False, s=False, g=None, frozen=frozenset(), own=None, in_loop=False, fn=None, funs=which,
                       rec=False, depth=depth)
-            tops = [(stmts, cs, c_after, var_names(list(stmts), set()) & TRACKED)
+            tops = [(stmts, cs, c_after, frozenset().union(*[self.tracked(st) for st in stmts]))
                     for stmts, cs, c_after, _j in self.seqs(top, budget, MAX_TOP) if stmts]
             tops.sort(key=lambda t: t[1])
             for defs, cd, used_defs in defs_list:
@@ -475,10 +486,15 @@ class Gen:
                 for stmts, cs, c_after, names in tops:
                     if cs > budget - cd:
                         break
+                    if exact is not None and cs + cd != exact:
+                        continue
                     # no dead definitions: every function is called from the top level, or (f) from a called h
                     if "f" in which and not ("f" in names or ("h" in names and ("h", "f") in used_defs)):
                         continue
                     if "h" in which and "h" not in names:
+                        continue
+                    counter += 1
+                    if shard is not None and counter % shard[1] != shard[0]:
                         continue
                     body = [("Expr", s) for s in stmts] + [("Expr", e) for e in epilogue(c_after)]
                     items = defs + body
